@@ -20,8 +20,9 @@ theorem g_prefix_none {g : PDeframer} (hg : DeframerOK g) (q rest : List Byte) (
 /-- what one reader call returns -/
 theorem ard_read_parts (r : ARd) (d : Nat) :
     match r.read d with
-    | (.data c, r') => c ++ r'.rem = r.rem ∧ c.length ≤ d ∧ (0 < d → (c = [] ↔ r.rem = [])) ∧ r'.acts.length ≤ r.acts.length
-    | (_, r') => r'.rem = r.rem ∧ r'.acts.length < r.acts.length := by
+    | (.data c, r') => c ++ r'.rem = r.rem ∧ c.length ≤ d ∧ (0 < d → (c = [] ↔ r.rem = [])) ∧ r'.acts = r.acts.tail
+    | (.err e, r') => r'.rem = r.rem ∧ r.acts = .err e :: r'.acts
+    | (.pending, r') => r'.rem = r.rem ∧ r.acts = .pending :: r'.acts := by
   unfold ARd.read
   cases hr : r.acts with
   | nil =>
@@ -52,10 +53,9 @@ theorem ard_read_parts (r : ARd) (d : Nat) :
 /-- outcome of one call of the loop, for ANY reader script (chunks, errors, pendings):
     either the chunking-free specification's answer, or a reader error / pending that lost nothing -/
 def LoopOutcome (g : PDeframer) (b : AB) (r : ARd) (out : AB × ARd × Res) : Prop :=
-  out.1.Inv ∧ out.1.size = b.size ∧
-  ((out.2.2 = (specNext b.size g (b.q ++ r.rem)).1 ∧ out.1.q ++ out.2.1.rem = (specNext b.size g (b.q ++ r.rem)).2 ∧
-      out.2.1.acts.length ≤ r.acts.length) ∨
-   (((∃ e, out.2.2 = .ioErr e) ∨ (out.2.2 = .pending ∧ AtAwait g out.1)) ∧
+  out.1.Inv ∧ out.1.size = b.size ∧ (∃ k, out.2.1.acts = r.acts.drop k) ∧
+  ((out.2.2 = (specNext b.size g (b.q ++ r.rem)).1 ∧ out.1.q ++ out.2.1.rem = (specNext b.size g (b.q ++ r.rem)).2) ∨
+   (((∃ e, out.2.2 = .ioErr e ∧ Act.err e ∈ r.acts) ∨ (out.2.2 = .pending ∧ AtAwait g out.1 ∧ Act.pending ∈ r.acts)) ∧
       out.1.q ++ out.2.1.rem = b.q ++ r.rem ∧ out.2.1.acts.length < r.acts.length))
 
 theorem pollLoop_outcome {g : PDeframer} (hg : DeframerOK g) :
@@ -81,7 +81,7 @@ theorem pollLoop_outcome {g : PDeframer} (hg : DeframerOK g) :
           hg.prefixDet b.q (b.q ++ r.rem) s e n hfq (by simp [List.take_append_of_le_length hnl])
         have hns : n ≤ b.size := by omega
         simp only [pollLoop, hv, LoopOutcome, specNext, hft, hns, if_true]
-        refine ⟨?_, ?_, Or.inl ⟨?_, ?_, Nat.le_refl _⟩⟩
+        refine ⟨?_, ?_, ⟨0, by simp⟩, Or.inl ⟨?_, ?_⟩⟩
         · unfold AB.consume AB.Inv
           split <;> simp <;> omega
         · unfold AB.consume; split <;> rfl
@@ -103,7 +103,7 @@ theorem pollLoop_outcome {g : PDeframer} (hg : DeframerOK g) :
           have hfull : b.q.length = b.size := by
             have : b.size - (0 + b.q.length) = 0 := hfree
             omega
-          refine ⟨by simp [AB.Inv, AB.shift]; omega, rfl, Or.inl ⟨?_, ?_, Nat.le_refl _⟩⟩
+          refine ⟨by simp [AB.Inv, AB.shift]; omega, rfl, ⟨0, by simp⟩, Or.inl ⟨?_, ?_⟩⟩
           · unfold specNext
             cases hft : g (b.q ++ r.rem) with
             | none =>
@@ -137,14 +137,18 @@ theorem pollLoop_outcome {g : PDeframer} (hg : DeframerOK g) :
           | pending =>
             simp only at hparts
             simp only [LoopOutcome]
-            refine ⟨hinvs, rfl, Or.inr ⟨Or.inr ⟨rfl, rfl, ?_, hfree⟩, by simp [AB.shift, hparts.1], hparts.2⟩⟩
-            by_cases hq : b.q = []
-            · left; exact hq
-            · right; exact hfq
+            have hat : AtAwait g b.shift := by
+              refine ⟨rfl, ?_, hfree⟩
+              by_cases hq : b.q = []
+              · left; exact hq
+              · right; exact hfq
+            exact ⟨hinvs, rfl, ⟨1, by rw [hparts.2]; simp⟩,
+              Or.inr ⟨Or.inr ⟨trivial, hat, by rw [hparts.2]; simp⟩, by simp [AB.shift, hparts.1], by rw [hparts.2]; simp⟩⟩
           | err e =>
             simp only at hparts
             simp only [LoopOutcome]
-            exact ⟨hinvs, rfl, Or.inr ⟨Or.inl ⟨e, rfl⟩, by simp [AB.shift, hparts.1], hparts.2⟩⟩
+            exact ⟨hinvs, rfl, ⟨1, by rw [hparts.2]; simp⟩,
+              Or.inr ⟨Or.inl ⟨e, rfl, by rw [hparts.2]; simp⟩, by simp [AB.shift, hparts.1], by rw [hparts.2]; simp⟩⟩
           | data c =>
             simp only at hparts
             obtain ⟨hsplit, hle, hnil, hacts⟩ := hparts
@@ -153,7 +157,7 @@ theorem pollLoop_outcome {g : PDeframer} (hg : DeframerOK g) :
               have hrem : r.rem = [] := (hnil hpos).mp hc
               have hrem' : r'.rem = [] := by rw [hc, hrem] at hsplit; simpa using hsplit
               simp only [hc, if_true, LoopOutcome]
-              refine ⟨hinvs, rfl, Or.inl ⟨?_, ?_, hacts⟩⟩
+              refine ⟨hinvs, rfl, ⟨1, by rw [hacts]; simp⟩, Or.inl ⟨?_, ?_⟩⟩
               · simp only [specNext, hrem, List.append_nil, hfq, hlt, if_false, AB.shift]
                 by_cases hq : b.q = [] <;> simp [hq]
               · rw [hrem']
@@ -172,10 +176,16 @@ theorem pollLoop_outcome {g : PDeframer} (hg : DeframerOK g) :
                 rw [List.append_assoc, hsplit]
               unfold LoopOutcome at this ⊢
               rw [ht] at this
-              obtain ⟨h1, h2, h3⟩ := this
-              refine ⟨h1, h2, ?_⟩
-              rcases h3 with ⟨a1, a2, a3⟩ | ⟨a1, a2, a3⟩
-              · exact Or.inl ⟨a1, a2, by omega⟩
-              · exact Or.inr ⟨a1, a2, by omega⟩
+              obtain ⟨h1, h2, ⟨k, hk⟩, h3⟩ := this
+              have htail : ∀ a, a ∈ r'.acts → a ∈ r.acts := by
+                intro a ha; rw [hacts] at ha; exact List.mem_of_mem_tail ha
+              have hlenle : r'.acts.length ≤ r.acts.length := by rw [hacts]; simp
+              refine ⟨h1, h2, ⟨k + 1, by rw [hk, hacts]; simp [List.drop_drop]⟩, ?_⟩
+              rcases h3 with ⟨a1, a2⟩ | ⟨a1, a2, a3⟩
+              · exact Or.inl ⟨a1, a2⟩
+              · refine Or.inr ⟨?_, a2, by omega⟩
+                rcases a1 with ⟨e, he, hm⟩ | ⟨hp, hat, hm⟩
+                · exact Or.inl ⟨e, he, htail _ hm⟩
+                · exact Or.inr ⟨hp, hat, htail _ hm⟩
 
 end FBV
